@@ -101,7 +101,9 @@ class Prop(PropBase):
         if case["shp"]:
             arg = (arr, arr.tolist(), tuple(arr.tolist()) if arr.ndim == 1 else arr, arr, arr)[k]
         else:
-            arg = (arr, np.float64(arr), np.array(arr), int(arr) if float(arr).is_integer() else arr, arr)[k]
+            v = float(arr)
+            narrow = np.int16(int(v)) if v.is_integer() and abs(v) < 30000 else (np.float32(v) if float(np.float32(v)) == v else arr)
+            arg = (arr, np.float64(arr), np.array(arr), int(arr) if v.is_integer() else arr, narrow)[k]
         return arg, np.asarray(arr, dtype=float)
 
     def run_code(self, case):
